@@ -171,6 +171,42 @@ def run(tier: str) -> Run:
         r3.check(o.kind == 'return' and kern == [want_k] and sel in names and other not in names, f'selected by {sel}',
                  loc(kfi), {'convert': o.kind if o.kind == 'return' else f'raises {o.exc_type}', 'kernel_used': kern,
                             'its_parameters': names}, key=f'R3:{sel}')
+    # R6: the graph for a request does not depend on the requests made before it
+    r6 = run.rule('R6', 'the graph selected for (origin, target, scatter, mode) does not depend on earlier requests: two-request histories of '
+                        'conversion_graph in one world (module-level tables and caches persist) give the graph of a fresh interpreter', 8)
+    gfi = repo.func('core.conversions', 'conversion_graph')
+    reqs = [(o_, t_, sc_, m_) for o_ in S.ORIGINS for sc_ in (True, False)
+            for t_, m_ in (('L2', 'elastic'), ('two_theta', 'elastic'), ('wavelength', 'elastic'), ('dspacing', 'elastic'), ('Q', 'elastic'),
+                           ('energy_transfer', 'direct_inelastic'), ('energy_transfer', 'indirect_inelastic'))]
+
+    def observe(i, req):
+        from sa.interp import RaiseSignal
+        try:
+            g = i.call_function(gfi, list(req), {})
+        except RaiseSignal as r_:
+            return ('raise', r_.exc_type)
+        return ('return', graph_signature(g) if isinstance(g, dict) else repr(g))
+    fresh = {}
+    for req in reqs:
+        o_ = it.run_all(lambda i, req=req: observe(i, req))
+        fresh[req] = [x.value for x in o_]
+    n_hist = 0
+    per_origin: dict = {}
+    for first in reqs:
+        for second in reqs:
+            if first[2] != second[2] and first[0] != second[0]:
+                continue  # (histories within one origin or one scatter mode; the others add nothing a table could be keyed by)
+            n_hist += 1
+            o_ = it.run_all(lambda i, first=first, second=second: (observe(i, first), i.end_of_call(), observe(i, second))[-1])
+            got = [x.value for x in o_]
+            if got != fresh[second]:
+                per_origin.setdefault((second[0], second[2]), []).append({'history': [list(map(str, first)), list(map(str, second))],
+                                                                         'fresh': str(fresh[second])[:200], 'after_the_first': str(got)[:200]})
+    for o_ in S.ORIGINS:
+        for sc_ in (True, False):
+            bad = per_origin.get((o_, sc_), [])
+            r6.check(not bad, f'origin={o_} scatter={sc_}', loc(gfi), {'histories_with_another_graph': len(bad), 'first': bad[:1], 'histories': n_hist},
+                     key=f'R6:{o_}:{sc_}')
     run.extra['configurations_enumerated'] = n_cfg
     run.exhaustive = tier == 'thorough'
     return run
